@@ -347,10 +347,7 @@ impl ProtocolState {
     ensures final(self).wf(),
         final(self).operations@.dom() =~= old(self).operations@.dom(),
         forall|k: u64| k != operation_id && old(self).operations@.contains_key(k) ==> final(self).operations@[k] == old(self).operations@[k],
-        final(self).pending_publish_operations@ == old(self).pending_publish_operations@,
-        final(self).pending_non_publish_operations@ == old(self).pending_non_publish_operations@,
-        final(self).current_operation == old(self).current_operation,
-        final(self).state == old(self).state,
+        *final(self) == (ProtocolState { operations: final(self).operations, allocated_packet_ids: final(self).allocated_packet_ids, next_packet_id: final(self).next_packet_id, ..*old(self) }),
         ({
             let op = old(self).operations@[operation_id];
             let op2 = final(self).operations@[operation_id];
@@ -970,12 +967,10 @@ impl ProtocolState {
             &&& (op_ack_timeout(op) matches Some(t) ==> heap_view(post.operation_ack_timeouts) == heap_view(pre.operation_ack_timeouts).insert(
                     Reverse(OperationTimeoutRecord { id, timeout: Instant { nanos: (now.nanos + t.nanos) as u128 } })))
             &&& (op_ack_timeout(op) is None ==> heap_view(post.operation_ack_timeouts) == heap_view(pre.operation_ack_timeouts))
-            &&& post.allocated_packet_ids@ == pre.allocated_packet_ids@
-            &&& post.user_operation_queue@ == pre.user_operation_queue@ && post.resubmit_operation_queue@ == pre.resubmit_operation_queue@
-            &&& post.high_priority_operation_queue@ == pre.high_priority_operation_queue@
-            &&& post.pending_write_completion == pre.pending_write_completion && post.next_operation_id == pre.next_operation_id
-            &&& post.config == pre.config && post.current_settings == pre.current_settings && post.current_time == pre.current_time
-            &&& post.slow_start_ack_count == pre.slow_start_ack_count
+            // frame
+            &&& post == (ProtocolState { operations: post.operations, pending_non_publish_operations: post.pending_non_publish_operations,
+                    pending_publish_operations: post.pending_publish_operations, pending_write_completion_operations: post.pending_write_completion_operations,
+                    state: post.state, operation_ack_timeouts: post.operation_ack_timeouts, current_operation: post.current_operation, ..pre })
         }),
 //@@at before "let id = operation.id;"
         proof { assert(operation.id == old(self).current_operation->Some_0); }
@@ -1049,6 +1044,65 @@ pub open spec fn completion_frame_but_timeouts(pre: ProtocolState, post: Protoco
     &&& post.connack_timeout_timepoint == pre.connack_timeout_timepoint
     &&& post.current_time == pre.current_time
     &&& post.protocol_version == pre.protocol_version
+}
+
+pub open spec fn sq_pre(s: ProtocolState, ctx: ServiceContext) -> bool {
+    &&& inv(s)
+    &&& clock_ok(ctx.current_time)
+    &&& ack_timeouts_in_range(s, ctx.current_time)
+    &&& s.next_packet_id >= 1
+    // the half-encoded operation (if any) already holds its packet id
+    &&& (s.current_operation matches Some(c) ==> (takes_packet_id(*s.operations@[c].packet) ==> s.operations@[c].packet_id is Some))
+    // C07/W7: while waiting for CONNACK the only thing that can be on its way out is the CONNECT
+    &&& (s.state == ProtocolStateType::PendingConnack ==> hp_only_connect(s))
+}
+
+// W7: in PendingConnack every tracked id in the high-priority queue (and the current operation) is a CONNECT
+pub open spec fn hp_only_connect(s: ProtocolState) -> bool {
+    &&& (forall|i: int| 0 <= i < s.high_priority_operation_queue@.len() && s.operations@.contains_key(#[trigger] s.high_priority_operation_queue@[i])
+            ==> *s.operations@[s.high_priority_operation_queue@[i]].packet is Connect)
+    &&& (s.current_operation matches Some(c) ==> (s.operations@.contains_key(c) ==> *s.operations@[c].packet is Connect))
+}
+
+impl ProtocolState {
+//@fn gneiss-mqtt/src/protocol.rs ProtocolState::service_queue_aux props=C07,C08,C09,C11,C06,C16
+    requires sq_pre(*old(self), *old(context)),
+        mode == ProtocolQueueServiceMode::HighPriorityOnly <==> old(self).state == ProtocolStateType::PendingConnack,
+    ensures final(self).wf(),
+        r is Ok ==> final(self).cur_ok(),
+        old(context).to_socket@.is_prefix_of(final(context).to_socket@),
+        final(context).current_time == old(context).current_time,
+        // nothing is written while a write is pending, in Disconnected/Halted, or after a DISCONNECT went out
+        (old(self).pending_write_completion && old(self).current_operation is None) ==> final(context).to_socket@ == old(context).to_socket@,
+        !(old(self).state == ProtocolStateType::PendingConnack || old(self).state == ProtocolStateType::Connected) ==> final(context).to_socket@ == old(context).to_socket@ && *final(self) == *old(self),
+        // state only ever moves Connected -> PendingDisconnect here
+        final(self).state == old(self).state || (old(self).state == ProtocolStateType::Connected && final(self).state == ProtocolStateType::PendingDisconnect),
+        final(self).pending_write_completion == old(self).pending_write_completion,
+        final(self).current_time == old(self).current_time, final(self).config == old(self).config,
+        final(self).current_settings == old(self).current_settings,
+        final(self).connack_timeout_timepoint == old(self).connack_timeout_timepoint,
+        final(self).ping_timeout_timepoint == old(self).ping_timeout_timepoint,
+        final(self).next_operation_id == old(self).next_operation_id,
+        final(self).state == ProtocolStateType::PendingConnack ==> hp_only_connect(*final(self)),
+//@@loop 0
+        invariant
+            self.wf(), self.cur_ok(), clock_ok(context.current_time), ack_timeouts_in_range(*self, context.current_time),
+            context.current_time == old(context).current_time,
+            old(context).to_socket@.is_prefix_of(context.to_socket@),
+            self.current_operation matches Some(c) ==> (takes_packet_id(*self.operations@[c].packet) ==> self.operations@[c].packet_id is Some),
+            self.state == ProtocolStateType::PendingConnack ==> hp_only_connect(*self),
+            mode == ProtocolQueueServiceMode::HighPriorityOnly <==> old(self).state == ProtocolStateType::PendingConnack,
+            self.state == old(self).state || (old(self).state == ProtocolStateType::Connected && self.state == ProtocolStateType::PendingDisconnect),
+            self.pending_write_completion == old(self).pending_write_completion,
+            self.current_time == old(self).current_time, self.config == old(self).config,
+            self.current_settings == old(self).current_settings,
+            self.connack_timeout_timepoint == old(self).connack_timeout_timepoint,
+            self.ping_timeout_timepoint == old(self).ping_timeout_timepoint,
+            self.next_operation_id == old(self).next_operation_id,
+            (old(self).pending_write_completion && old(self).current_operation is None) ==> context.to_socket@ == old(context).to_socket@ && self.current_operation is None,
+            !(old(self).state == ProtocolStateType::PendingConnack || old(self).state == ProtocolStateType::Connected) ==> context.to_socket@ == old(context).to_socket@ && *self == *old(self),
+        decreases queue_measure(*self),
+//@end
 }
 } // verus!
 fn main() {}
